@@ -465,7 +465,9 @@ def conditioning(name, model):
 def tolerances(name, *models):
     """comparison tolerances "up to rounding" for two runs of an EM that agree in exact arithmetic"""
     if name == 'cbmm':          # solver values replayed (BinghamSolverTape); parameters -1/lambda are ill-conditioned
-        return dict(post=1e-6, param=1e-5, lp=1e-5)
+        # (rounding differences of the scatter eigenvalues, 1e-16, reach the Bingham parameters amplified by the
+        # concentration, ~1e8 for clustered data, and the posteriors of the next iterations from there)
+        return dict(post=1e-5, param=1e-4, lp=1e-4)
     c = max(conditioning(name, m) for m in models)
     return dict(post=min(1e-3, 1e-8 + 1e-14 * c), param=min(1e-2, 1e-6 + 1e-13 * c), lp=min(1e-2, 1e-6 + 1e-13 * c))
 
